@@ -165,7 +165,7 @@ def gen_cases(tier, seed):
     step = 1024
     for lo in range(-32768, 32768, step):
         cs.append({'ty': '%', 'range': [lo, min(lo + step, 32768)]})
-    nrand = 1500 if tier == 'quick' else 60000
+    nrand = 1500 if tier == 'quick' else 250000
     for ty in '&!#':
         vals = special_values(ty, r, nrand)
         B = 250
